@@ -540,6 +540,39 @@ def build_commands(p, sp, tag, newdoc_form=0, vary=None):
     if vary is not None:
         # xi_setgroup(n): "set the group of the selected items to n" (and unselects them): away and back again
         LL.append(POSTLUDE)
+        labs = p.get("labels", [])
+        if len(labs) >= 2:
+            # detours through the "there is exactly one default label" / "outer-space flag per label" book-keeping: the default is
+            # first attached to ANOTHER label (the later xi_attachdefault on the right one must take it away again), and the
+            # outer-space flag is attached to a label that is not exterior and detached again
+            dflt = [k for k, l in enumerate(labs) if l.get("external", 0) & 2]
+            if dflt and vary.random() < 0.6:
+                others = [k for k in range(len(labs)) if k != dflt[0]]
+                o = labs[others[vary.randrange(len(others))]]
+                LL.append(call(pi + "_selectlabel", lnum(o["x"]), lnum(o["y"])))
+                LL.append(call(pi + "_attachdefault"))
+                LL.append(call(pi + "_clearselected"))
+                r = labs[dflt[0]]
+                LL.append(call(pi + "_selectlabel", lnum(r["x"]), lnum(r["y"])))
+                LL.append(call(pi + "_attachdefault"))
+                LL.append(call(pi + "_clearselected"))
+            elif not dflt and vary.random() < 0.3:
+                o = labs[vary.randrange(len(labs))]
+                LL.append(call(pi + "_selectlabel", lnum(o["x"]), lnum(o["y"])))
+                LL.append(call(pi + "_attachdefault"))
+                LL.append(call(pi + "_clearselected"))
+                LL.append(call(pi + "_selectlabel", lnum(o["x"]), lnum(o["y"])))
+                LL.append(call(pi + "_detachdefault"))
+                LL.append(call(pi + "_clearselected"))
+            inner = [k for k, l in enumerate(labs) if not (l.get("external", 0) & 1)]
+            if inner and vary.random() < 0.3:
+                o = labs[inner[vary.randrange(len(inner))]]
+                LL.append(call(pi + "_selectlabel", lnum(o["x"]), lnum(o["y"])))
+                LL.append(call(pi + "_attachouterspace"))
+                LL.append(call(pi + "_clearselected"))
+                LL.append(call(pi + "_selectlabel", lnum(o["x"]), lnum(o["y"])))
+                LL.append(call(pi + "_detachouterspace"))
+                LL.append(call(pi + "_clearselected"))
         picks = []
         if pts:
             picks.append(("_selectnode", pts[vary.randrange(len(pts))], None))
